@@ -378,12 +378,14 @@ bool still_fails(ShrinkCtx &c, const Plan &p) {
   return s == c.want_sig && sc == c.want_scope;
 }
 
+bool exhausted(const ShrinkCtx &c) { return c.execs >= c.budget || now_s() > c.deadline; }
+
 template <class T> bool ddmin_vec(ShrinkCtx &c, Plan &p, std::function<std::vector<T> &(Plan &)> acc) {
   bool any = false;
   size_t chunk = std::max<size_t>(1, acc(p).size() / 2);
-  while (chunk >= 1 && !acc(p).empty()) {
+  while (chunk >= 1 && !acc(p).empty() && !exhausted(c)) {
     bool removed = false;
-    for (size_t start = 0; start < acc(p).size();) {
+    for (size_t start = 0; start < acc(p).size() && !exhausted(c);) {
       Plan q = p;
       std::vector<T> &v = acc(q);
       size_t end = std::min(v.size(), start + chunk);
@@ -411,7 +413,7 @@ Plan shrink_plan(const Plan &orig, const std::string &sig, bool scope, long budg
   Plan p = orig;
   bool progress = true;
   int rounds = 0;
-  while (progress && rounds++ < 6 && now_s() < c.deadline) {
+  while (progress && rounds++ < 6 && !exhausted(c)) {
     progress = false;
     // whole tasks
     for (size_t t = p.tasks.size(); t-- > 0 && p.tasks.size() > 1;) {
@@ -501,8 +503,8 @@ Plan shrink_plan(const Plan &orig, const std::string &sig, bool scope, long budg
     }
     if (!p.preempt.empty()) progress |= ddmin_vec<Preempt>(c, p, [](Plan &x) -> std::vector<Preempt> & { return x.preempt; });
     // per-op simplification
-    for (size_t t = 0; t < p.tasks.size(); t++)
-      for (size_t i = 0; i < p.tasks[t].ops.size(); i++) {
+    for (size_t t = 0; t < p.tasks.size() && !exhausted(c); t++)
+      for (size_t i = 0; i < p.tasks[t].ops.size() && !exhausted(c); i++) {
         // lines
         if (p.tasks[t].ops[i].lines.size() > 1)
           progress |= ddmin_vec<std::string>(c, p, [t, i](Plan &x) -> std::vector<std::string> & { return x.tasks[t].ops[i].lines; });
